@@ -140,6 +140,17 @@ def handleL2 (j : Json) : Except String Json := do
       match parse (mkEnv q qcls.toArray) with
       | .ok msegs => Sqlair.inputsCounted ((msegs.map (Seg.toOSeg q)).filter (·.kind != .bypass)) o
       | .error _ => true
+    -- two values of one type were supplied (the model refuses: "provided more than once")
+    -- and the statement ran all the same: whichever value won, the other one is not what
+    -- its expression was bound to
+    let dupLost : Bool := (match m.bind with | .error "type-provided-twice" => true | _ => false) &&
+      o.prepOk && o.bindOk && o.mode != "none"
+    -- C02 inside expressions: a function call written as an output column is kept verbatim,
+    -- string literals and comments in its arguments included (whatever they contain)
+    let callsVerbatim : Bool :=
+      if !(o.prepOk && o.bindOk) || o.mode == "none" then true else
+      segs.all fun sg => sg.kind != .output || sg.cols.all fun c =>
+        !c.func || !(c.column.any fun b => b == 39 || b == 34 || b == 45 || b == 47) || (o.sql.findFrom c.column 0).isSome
     let aff := (affected m o ++ (if wrongReject then ["C07"] else []) ++ parserAff ++
       (if prepDiffers then kindProps segs else [])).eraseDups
     -- hypothesis of the no-panic theorems (C18): every argument tree has the shape its type
@@ -151,8 +162,8 @@ def handleL2 (j : Json) : Except String Json := do
        ("agree", Json.bool aff.isEmpty),
        ("affects", Json.arr (aff.map Json.str).toArray),
        ("c01", Json.bool (holdsC01e2e q segs o && holdsC01exact segs o)),
-       ("c03", Json.bool ((!tagsClean tt || holdsC03 segs o) && holdsC03vals C tt segs args o && holdsC03present args o && inputsCounted && !lost.contains "C03")),
-       ("c02", Json.bool (literalsVerbatim segs o)),
+       ("c03", Json.bool ((!tagsClean tt || holdsC03 segs o) && holdsC03vals C tt segs args o && holdsC03present args o && inputsCounted && !lost.contains "C03" && !dupLost)),
+       ("c02", Json.bool (literalsVerbatim segs o && callsVerbatim)),
        ("c04", Json.bool (holdsC04rej m o && literalsVerbatim segs o && (!c04rowsGuards tt segs || holdsC04rows C tt segs args o) && !lost.contains "C04")),
        ("c05", Json.bool ((!tagsClean tt || holdsC05 segs o) && !lost.contains "C05")),
        ("c07", Json.bool (holdsC07 m o && !wrongReject)),
